@@ -41,7 +41,7 @@ RULE = (
     "%5c, fullwidth/one-dot-leader/division-slash look-alikes, cfgA, cfgB, root-evil, outside, secret, {BASE}, {ROOT}, -, "
     "space, ~, '' ...} or a valid name; part threads (1 of 11): 3-24 operations over 3 thread ids drawn from a pool with shared "
     "16-character prefixes/case variants/255 characters, each with 1-3 messages (roles, small content alphabet so different "
-    "threads hold equal messages, optional extra keys), ~10% without thread id, ~8% with context, configs cfgA/cfgB/[cfgA,cfgB], "
+    "threads hold equal messages, optional extra keys), ~10% without thread id, a quarter of the plain thread turns overlap with a complete turn on another thread id (served as its own task while the first is being generated), ~8% with context, configs cfgA/cfgB/[cfgA,cfgB], "
     "followed by a probe request per thread. Non-trivial: ids case = some id contains a separator, a dot sequence, a "
     "percent-encoding or a look-alike; threads case = at least 3 thread requests and at least 2 thread ids interleaved "
     "(a thread is used again after another one was used); distinct by case hash."
@@ -118,6 +118,7 @@ def _env():
     _mk_config(os.path.join(e.base, "outside", "secret"), "SECRET")
     e.paths, e.calls, e.touched = [], [], []
     e.watch = False
+    e.nested, e.nested_result = None, None
 
     class StubRails:
         def __init__(self, config=None, llm=None, verbose=False, **kwargs):
@@ -127,6 +128,25 @@ def _env():
         async def generate_async(self, messages=None, **kwargs):
             snap = json.loads(json.dumps(messages))
             e.calls.append(snap)
+            if e.nested is not None:
+                # another request (other thread id) arrives and is served completely while this one is being generated;
+                # it runs as its own task with an empty context, like a request accepted by the server meanwhile
+                import asyncio
+                import contextvars
+
+                import httpx
+
+                body, e.nested = e.nested, None
+
+                async def inner():
+                    async with httpx.AsyncClient(transport=httpx.ASGITransport(app=api.app), base_url="http://testserver") as c:
+                        r = await c.post("/v1/chat/completions", json=body)
+                        try:
+                            return r.status_code, r.json()
+                        except Exception:
+                            return r.status_code, None
+
+                e.nested_result = await asyncio.get_running_loop().create_task(inner(), context=contextvars.Context())
             if snap and isinstance(snap[-1], dict) and snap[-1].get("content") == BOOM:
                 raise RuntimeError("scripted generation failure")
             return _reply_for(snap)
@@ -363,6 +383,10 @@ def _threads_case(draw):
         if tid is not None and ctx is None and draw(st.integers(0, 6)) == 0:
             op["messages"] = msgs + [{"role": "user", "content": BOOM}]
             op["fail"] = True
+        if tid is not None and ctx is None and not op.get("fail") and draw(st.integers(0, 3)) == 0:
+            # a turn on ANOTHER thread is served completely while this turn is being generated
+            other = draw(st.sampled_from([t for t in range(3) if t != tid]))
+            op["during"] = {"tid": other, "cfg": draw(st.sampled_from(["cfgA", "cfgB"])), "messages": draw(st.lists(_message(), min_size=1, max_size=2))}
         ops.append(op)
     return {"part": "threads", "tids": tids, "ops": ops}
 
@@ -543,6 +567,7 @@ def _threads_run(e, case):
     order = []
     n_thread_reqs = 0
     n_failed = 0
+    n_overlaps = 0
     probes = [{"tid": i, "cfg": "cfgA", "messages": [{"role": "user", "content": f"probe-{i}"}], "context": None, "probe": True} for i in range(3)]
     for n, op in enumerate(list(case["ops"]) + probes):
         tid = None if op["tid"] is None else tids[op["tid"]]
@@ -555,8 +580,27 @@ def _threads_run(e, case):
             body["thread_id"] = tid
         if op.get("context") is not None:
             body["context"] = op["context"]
+        during = op.get("during")
+        if during:
+            e.nested = {"messages": json.loads(json.dumps(during["messages"])), "config_id": during["cfg"], "thread_id": tids[during["tid"]]}
+            e.nested_result = None
         status, js, paths, calls, touched = _post(e, body)
         what = f"step #{n} thread={tid!r:.40} cfg={op['cfg']!r} new={op['messages']!r}" + (f" context={op['context']!r}" if op.get("context") else "")
+        if during:
+            tid2 = tids[during["tid"]]
+            what += f" [while it was generated, a turn on thread {tid2!r:.40} with {during['messages']!r} was served]"
+            if len(calls) != 2 or e.nested_result is None or e.nested_result[0] != 200:
+                raise Violation("turn-failed", f"{what}: overlapped turn: rails calls {len(calls)}, inner result {str(e.nested_result)[:200]}")
+            inner_received = calls.pop(1)
+            exp2 = model[tid2] + during["messages"]
+            if inner_received != exp2:
+                raise Violation("wrong-history-used", f"{what}: the overlapped turn received {json.dumps(inner_received)[:300]} but its stored thread + new messages is {json.dumps(exp2)[:300]}")
+            reply2 = _reply_for(inner_received)
+            if not isinstance(e.nested_result[1], dict) or e.nested_result[1].get("messages") != [reply2]:
+                raise Violation("wrong-reply", f"{what}: the overlapped turn answered {str(e.nested_result[1])[:200]}, its reply is {reply2!r}")
+            model[tid2] = inner_received + [reply2]
+            n_thread_reqs += 1
+            n_overlaps += 1
         _check_confinement(e, what, paths, touched)
         if op.get("fail"):
             # generation failed: nothing is said about the reply or about what is stored for THIS thread, but the turn
@@ -609,6 +653,8 @@ def _threads_run(e, case):
         labels.append("context-request")
     if n_failed:
         labels.append("failing-turn")
+    if n_overlaps:
+        labels.append("overlapping-turns-on-two-threads")
     if any(isinstance(o["cfg"], list) for o in case["ops"]):
         labels.append("config_ids-on-thread")
     pre = {t[:16] for t in tids}
